@@ -79,7 +79,7 @@ def c20_csv_read(s="a", w="b"):
     for delim in (",", ";", "\t", "|"):
         with tempfile.TemporaryDirectory() as td:
             p = os.path.join(td, "in.csv")
-            rows = [["name", "2nd", "plain"], [s, "b", "c"], ["", w, "z"], ["n3", "v3", "p3"], ["n4", "v4", "p4"]]
+            rows = [["name", "2nd", "plain"], [s, "b", "c"], ["", w, "z"], ["n3", "v3", "p3"], ["n4", "v4", "p4"], ["line1\r\nline2", "v5", "p5"], ["n6", "cr\ronly", "lf\nonly"]]
             with open(p, "w", newline="") as f:
                 wr = csv.writer(f, delimiter=delim)
                 for row in rows:
